@@ -3,7 +3,7 @@
 // Two real on-disk nodes process the same short block history (txs of a probe contract registered in
 // native.Contracts writing overlapping keys: overwrite, delete-then-put, put-then-delete, a failing tx, an empty
 // block). Node B commits undisturbed. Node A additionally serves node-local events placed between the steps of the
-// commit path; EVERY placement of <= bound events over the history is enumerated (deviation bound 2 quick / 3 thorough):
+// commit path; EVERY placement of <= bound events over the history is enumerated (deviation bound 2; 3 on a 2-block history in thorough):
 //
 //	slots : before ExecuteBlock(h) and between ExecuteBlock(h) and SubmitBlock(h) [resp. AddBlock(h)], for every h
 //	events: PreExecuteContract read-only, PreExecuteContract writing, a second ExecuteBlock of the same block
@@ -328,7 +328,22 @@ func ledgerPhase(r *ev.Run, workers int) map[string]any {
 			{{ops: []wr{{"a", ""}}}, {ops: []wr{{"a", "yy"}, {"b", "x"}}}},
 		},
 	}
-	bound := r.QT(2, 3)
+	// explored configurations: (history, commit path, deviation bound). Every node run allocates ~8-10 x 4 MiB
+	// (three leveldb write buffers at open, one overlay arena per ExecuteBlock / PreExecuteContract), which is what
+	// bounds the quick tier: 2-block prefix of H1, bound 2 on the consensus path, bound 1 on the sync path.
+	type cfg struct {
+		hid    string
+		blocks int
+		sync   bool
+		bound  int
+	}
+	var cfgs []cfg
+	if r.Quick() {
+		cfgs = []cfg{{"H1-overlap", 2, false, 2}, {"H1-overlap", 2, true, 1}}
+	} else {
+		cfgs = []cfg{{"H1-overlap", 3, false, 2}, {"H1-overlap", 3, true, 2}, {"H2-empty-block", 3, false, 2}, {"H2-empty-block", 3, true, 2},
+			{"H1-overlap", 2, false, 3}}
+	}
 	var runs, cut atomic.Int64
 	type job struct {
 		hid  string
@@ -355,22 +370,20 @@ func ledgerPhase(r *ev.Run, workers int) map[string]any {
 			}
 		}()
 	}
-	hids := make([]string, 0, len(histories))
-	for k := range histories {
-		hids = append(hids, k)
-	}
-	sort.Strings(hids)
-	nPl := 0
-	for _, hid := range hids {
-		h := histories[hid]
-		for _, sy := range []bool{false, true} {
-			ref := buildReference(r, vals, hid, h, sy)
-			pl := placements(2*len(h), bound)
-			nPl = len(pl)
-			for _, evs := range pl {
-				jobs <- job{hid, ref, evs, sy}
-			}
+	var cfgNotes []map[string]any
+	for _, c := range cfgs {
+		h := histories[c.hid][:c.blocks]
+		ref := buildReference(r, vals, c.hid, h, c.sync)
+		pl := placements(2*len(h), c.bound)
+		for _, evs := range pl {
+			jobs <- job{c.hid, ref, evs, c.sync}
 		}
+		path := "ExecuteBlock+SubmitBlock"
+		if c.sync {
+			path = "ExecuteBlock(dry run)+AddBlock"
+		}
+		cfgNotes = append(cfgNotes, map[string]any{"history": c.hid, "blocks": c.blocks, "commit_path": path, "slots": 2 * len(h),
+			"deviation_bound": c.bound, "placements": len(pl)})
 	}
 	close(jobs)
 	wg.Wait()
@@ -378,6 +391,6 @@ func ledgerPhase(r *ev.Run, workers int) map[string]any {
 		r.Capped("phase D (ledger) cut by deadline")
 	}
 	r.Class("ledger_runs")
-	return map[string]any{"histories": hids, "blocks_per_history": 3, "commit_paths": []string{"ExecuteBlock+SubmitBlock", "ExecuteBlock+AddBlock"},
-		"event_kinds": evKinds, "slots_per_history": 6, "deviation_bound": bound, "placements_per_history_and_path": nPl, "node_runs": runs.Load()}
+	return map[string]any{"configurations": cfgNotes, "event_kinds": evKinds, "node_runs": runs.Load(),
+		"slots": "before ExecuteBlock(h); between ExecuteBlock(h) and SubmitBlock/AddBlock(h)"}
 }
